@@ -132,7 +132,9 @@ class GotranODECodePrinter(BaseGotranODECodePrinter):
             d[i.components].append(i)
 
         text = ""
-        for components, intermediates in d.items():
+        # Expressions without a component are written without a header. They have to come
+        # first: after a headed block they would be read as part of that block
+        for components, intermediates in sorted(d.items(), key=lambda item: item[0] != ("",)):
             text += start_odeblock("expressions", names=components, is_expression=True) + "\n"
             text += "\n".join([print_assignment(i, doprint=self.doprint) for i in intermediates])
             text += "\n\n"
